@@ -211,7 +211,7 @@ func ProblemsToViolations(res *Result, prop string, probs []simrt.Problem, want 
 		}
 		res.Violations = append(res.Violations, Violation{
 			Property: prop, Rule: p.Kind, Disc: p.Site + ":" + p.Detail,
-			Detail: fmt.Sprintf("task %s: %s at %s", p.Task, p.Detail, p.Site), Step: p.Step, Action: p.Action,
+			Detail: fmt.Sprintf("task %s: %s at %s [%s]", p.Task, p.Detail, p.Site, p.Frames), Step: p.Step, Action: p.Action,
 		})
 	}
 	dedup(res)
